@@ -329,6 +329,31 @@ theorem import_exports_toplevel (env : Env) (ctx : Frame) (f : Nat) (cur : Optio
   rw [lookup_assigns_other name T.layout [] h]
   rfl
 
+/-- importing a template that itself *extends*: for a child `pre ++ [extends p] ++ post` and a
+    parent `p` made of top-level assignments, `{% import child as v %}` binds `v` to the module
+    of the child's assignments in front of and behind the `extends` tag followed by the parent's
+    (a later assignment of the same name wins) — the imported template is rendered as an
+    inheritance chain of its own into the fresh frame. -/
+theorem import_of_extending_template (env : Env) (ctx : Frame) (henv : EnvOK env) (f : Nat)
+    (cur : Option Nat) (d0 e0 : Bool) (outer : Nat) (parent : Option (List Item))
+    (t p v : Nat) (T P : Template) (pre post : List Item)
+    (hT : env[t]? = some T) (hP : env[p]? = some P) (hl : T.layout = pre ++ .extends true p :: post)
+    (hpre : pre.all Item.isAssign = true) (hpost : post.all Item.isAssign = true)
+    (hpl : P.layout.all Item.isAssign = true) (rest : List Item) (st : St)
+    (hd : outer + INCLUDE_COST + (st.frames.length + 1) ≤ LIMIT) :
+    stepItems ⟨env, ctx, cur, d0, e0, outer⟩ (evalImpl env ctx (f + 2)) parent (.importAs t v :: rest) st =
+      stepItems ⟨env, ctx, cur, d0, e0, outer⟩ (evalImpl env ctx (f + 2)) parent rest
+        { st with frames := (store st.frames v
+            (Val.module (dedupKeys (assigns P.layout (assigns post (assigns pre [])))))) } :=
+  importAs_extending_step env ctx henv f cur d0 e0 outer parent t p v T P pre post hT hP hl hpre hpost hpl
+    rest st hd
+
+example : render
+    [ { layout := [.importAs 1 8, .emitAttr 8 2, .emitAttr 8 3, .emitAttr 8 4], blocks := [] },
+      { layout := [.setVar 2 "c2", .extends true 2, .setVar 3 "c3"], blocks := [] },
+      { layout := [.setVar 4 "p4", .setVar 2 "p2"], blocks := [] } ] [] 10 0
+    = .ok ["p2", "c3", "p4"] := by decide +kernel
+
 def modT : Template :=
   { layout := [.text "<m>", .setVar 2 "a", .defMacro 4 "<mac>", .setVar 2 "b"], blocks := [] }
 
